@@ -9,7 +9,9 @@ import (
 	"bytes"
 	"encoding/json"
 	"fmt"
+	"io"
 	"math"
+	"mime/multipart"
 	"net/http"
 	"net/http/httptest"
 	"net/textproto"
@@ -110,6 +112,9 @@ type ParseReq struct {
 	Body     *string `json:"body"`
 	Ctype    *string `json:"ctype"`    // Content-Type of the body (default application/json)
 	PostForm bool    `json:"postform"` // send the form parameters as an x-www-form-urlencoded body
+	// with PostForm: the body is multipart/form-data instead (GetFormValues then goes through ParseMultipartForm)
+	Multipart bool `json:"multipart"`
+	Query     *Doc `json:"query"` // with PostForm: parameters sent in the URL as well
 }
 
 type Repeat struct {
@@ -136,6 +141,14 @@ type Case struct {
 	Entries   *Doc      `json:"entries"`   // mode "scribble": what the caller stores in the map it got back
 	Mutate    bool      `json:"mutate"`    // after the call the caller overwrites every reference-typed part of ITS target
 	Conc      *Conc     `json:"conc"`      // mode "seq": the steps are calls that OVERLAP (see runConc)
+	// Entry (mode "parse"): the entry point applied to the request: "" / "Parse", "ParseForm", "ParsePath",
+	// "ParseHeaders", "ParseJsonBody", "GetFormValues" (its result handed to an unmarshaller built like httpx's)
+	Entry string `json:"entry"`
+	// ReqID: inside a sequence, steps with the same ReqID are applied to ONE object of the caller: the same
+	// *http.Request (its Form / Header / URL / path variables / body bytes), the same input map, the same bytes
+	ReqID string `json:"reqid"`
+	// Preparse: the caller has looked at the request itself (r.ParseForm / r.FormValue) before go-zero does
+	Preparse bool `json:"preparse"`
 	// sequences
 	Steps  []Case `json:"steps"`
 	Procs1 bool   `json:"procs1"` // run the sequence under GOMAXPROCS(1)
@@ -149,7 +162,10 @@ type Out struct {
 	Tag     string `json:"tag,omitempty"`
 	Called  bool   `json:"called"`          // the installed request validator ran
 	Alias   string `json:"alias,omitempty"` // two positions of the target share one pointer
-	Fail    string `json:"fail,omitempty"`  // executor problem (bad case), not an observation
+	// Changed: after the call an object handed in by the caller (r.Form, r.PostForm, r.Header, r.URL, the path
+	// variables, the body bytes, the input map, the input text) no longer holds what the caller put there
+	Changed string `json:"changed,omitempty"`
+	Fail    string `json:"fail,omitempty"` // executor problem (bad case), not an observation
 	Steps   []Out  `json:"steps,omitempty"`
 }
 
@@ -697,9 +713,315 @@ func scribble(c Case) (out Out) {
 // slice backing arrays) owned by the targets and inputs of the earlier calls — a later target must
 // not share any of it — and the targets themselves, kept alive so that no address is reused.
 type seqState struct {
-	seen map[uintptr]string
-	keep []any
-	step int
+	seen   map[uintptr]string
+	keep   []any
+	step   int
+	reqs   map[string]*sharedReq // by ReqID: the caller's request objects
+	inputs map[string]any        // by ReqID: the caller's input maps
+	raws   map[string][]byte     // by ReqID: the caller's input texts
+}
+
+// sharedReq is one request object of the caller together with a record of what the caller put into
+// it, taken from a twin request that only net/http has looked at.
+type sharedReq struct {
+	r        *http.Request
+	jsonBody bool   // the body is not a form: the caller restores it (r.Body) before every call, as a
+	body     []byte // body-caching middleware does; body = the caller's bytes, bodyCopy = what they held
+	bodyCopy []byte
+	form     url.Values
+	postForm url.Values
+	multi    map[string][]string
+	header   http.Header
+	url      string
+	vars     map[string]string
+	reported string // the change reported after the last call
+}
+
+func sameValues(a, b map[string][]string) string {
+	for k, va := range a {
+		vb, ok := b[k]
+		if !ok && len(va) > 0 {
+			return fmt.Sprintf("%q is %q, the caller supplied none", k, va)
+		}
+		if len(va) != len(vb) {
+			return fmt.Sprintf("%q is %q, the caller supplied %q", k, va, vb)
+		}
+		for i := range va {
+			if va[i] != vb[i] {
+				return fmt.Sprintf("%q is %q, the caller supplied %q", k, va, vb)
+			}
+		}
+	}
+	for k, vb := range b {
+		if _, ok := a[k]; !ok && len(vb) > 0 {
+			return fmt.Sprintf("%q is gone, the caller supplied %q", k, vb)
+		}
+	}
+	return ""
+}
+
+// changed compares everything the caller handed in with what it held before go-zero looked at it.
+func (sr *sharedReq) changed() string {
+	r := sr.r
+	if r.Form != nil {
+		if d := sameValues(r.Form, sr.form); d != "" {
+			return "r.Form: " + d
+		}
+	}
+	if r.PostForm != nil {
+		if d := sameValues(r.PostForm, sr.postForm); d != "" {
+			return "r.PostForm: " + d
+		}
+	}
+	if r.MultipartForm != nil {
+		if d := sameValues(r.MultipartForm.Value, sr.multi); d != "" {
+			return "r.MultipartForm.Value: " + d
+		}
+	}
+	if d := sameValues(r.Header, sr.header); d != "" {
+		return "r.Header: " + d
+	}
+	if r.URL.String() != sr.url {
+		return fmt.Sprintf("r.URL is %q, was %q", r.URL.String(), sr.url)
+	}
+	vars := pathvar.Vars(r)
+	if len(vars) != len(sr.vars) {
+		return fmt.Sprintf("path variables are %q, were %q", vars, sr.vars)
+	}
+	for k, v := range sr.vars {
+		if w, ok := vars[k]; !ok || w != v {
+			return fmt.Sprintf("path variables are %q, were %q", vars, sr.vars)
+		}
+	}
+	if !bytes.Equal(sr.body, sr.bodyCopy) {
+		return "the body bytes were overwritten"
+	}
+	return ""
+}
+
+// sameDoc: equality of document trees; a NaN equals a NaN.
+func sameDoc(a, b any) bool {
+	switch x := a.(type) {
+	case map[string]any:
+		y, ok := b.(map[string]any)
+		if !ok || len(x) != len(y) || (x == nil) != (y == nil) {
+			return false
+		}
+		for k, e := range x {
+			f, ok := y[k]
+			if !ok || !sameDoc(e, f) {
+				return false
+			}
+		}
+		return true
+	case []any:
+		y, ok := b.([]any)
+		if !ok || len(x) != len(y) || (x == nil) != (y == nil) {
+			return false
+		}
+		for i := range x {
+			if !sameDoc(x[i], y[i]) {
+				return false
+			}
+		}
+		return true
+	case float64:
+		y, ok := b.(float64)
+		return ok && (x == y || (x != x && y != y))
+	case float32:
+		y, ok := b.(float32)
+		return ok && (x == y || (x != x && y != y))
+	}
+	return reflect.DeepEqual(a, b)
+}
+
+// deepCopy copies a document tree (what toAny / stringMap produce).
+func deepCopy(x any) any {
+	switch v := x.(type) {
+	case map[string]any:
+		if v == nil {
+			return v
+		}
+		m := make(map[string]any, len(v))
+		for k, e := range v {
+			m[k] = deepCopy(e)
+		}
+		return m
+	case []any:
+		if v == nil {
+			return v
+		}
+		l := make([]any, len(v))
+		for i, e := range v {
+			l[i] = deepCopy(e)
+		}
+		return l
+	case []string:
+		if v == nil {
+			return v
+		}
+		return append(make([]string, 0, len(v)), v...)
+	}
+	return x
+}
+
+// makeRequest builds the request of an httpx case: called once for the request go-zero gets and
+// once for its twin.  It returns the body bytes when the body is not a form, and the path variables.
+func makeRequest(c Case) (r *http.Request, body []byte, jsonBody bool, vars map[string]string, err error) {
+	switch c.Mode {
+	case "httpx-json":
+		if c.Raw == nil {
+			return nil, nil, false, nil, fmt.Errorf("httpx-json mode needs raw")
+		}
+		body = []byte(*c.Raw)
+		if c.Pad > 0 && len(body) > 0 {
+			padded := make([]byte, 0, len(body)+c.Pad)
+			padded = append(padded, body[0])
+			padded = append(padded, bytes.Repeat([]byte{' '}, c.Pad)...)
+			body = append(padded, body[1:]...)
+		}
+		jsonBody = true
+		r = httptest.NewRequest(http.MethodPost, "/x", bytes.NewReader(body))
+		ct := "application/json"
+		if c.Ctype != nil {
+			ct = *c.Ctype
+		}
+		if ct != "" {
+			r.Header.Set("Content-Type", ct)
+		}
+	case "httpx-form":
+		q, err := queryOf(c.Doc, c.Repeat)
+		if err != nil {
+			return nil, nil, false, nil, fmt.Errorf("doc: %v", err)
+		}
+		r = httptest.NewRequest(http.MethodGet, "/x?"+q.Encode(), nil)
+	case "httpx-path":
+		sm, _, err := stringMap(c.Doc)
+		if err != nil {
+			return nil, nil, false, nil, fmt.Errorf("doc: %v", err)
+		}
+		vars = map[string]string{}
+		for k, v := range sm {
+			vars[k] = v[0]
+		}
+		r = httptest.NewRequest(http.MethodGet, "/x", nil)
+	case "httpx-header":
+		r = httptest.NewRequest(http.MethodGet, "/x", nil)
+		if err := addHeaders(r, c.Doc); err != nil {
+			return nil, nil, false, nil, fmt.Errorf("doc: %v", err)
+		}
+	case "parse":
+		if c.Req == nil {
+			return nil, nil, false, nil, fmt.Errorf("parse mode needs req")
+		}
+		q := url.Values{}
+		if c.Req.Form != nil {
+			if q, err = queryOf(c.Req.Form, nil); err != nil {
+				return nil, nil, false, nil, fmt.Errorf("form: %v", err)
+			}
+		}
+		switch {
+		case c.Req.PostForm:
+			target := "/x"
+			if c.Req.Query != nil {
+				uq, err := queryOf(c.Req.Query, nil)
+				if err != nil {
+					return nil, nil, false, nil, fmt.Errorf("query: %v", err)
+				}
+				target = "/x?" + uq.Encode()
+			}
+			if c.Req.Multipart {
+				var buf bytes.Buffer
+				mw := multipart.NewWriter(&buf)
+				if err := mw.SetBoundary("verifc08boundary7d1f3a"); err != nil {
+					return nil, nil, false, nil, err
+				}
+				sm, order, err := stringMap(c.Req.Form)
+				if c.Req.Form == nil {
+					sm, order, err = nil, nil, nil
+				}
+				if err != nil {
+					return nil, nil, false, nil, fmt.Errorf("form: %v", err)
+				}
+				for _, k := range order {
+					for _, v := range sm[k] {
+						if err := mw.WriteField(k, v); err != nil {
+							return nil, nil, false, nil, err
+						}
+					}
+				}
+				mw.Close()
+				r = httptest.NewRequest(http.MethodPost, target, bytes.NewReader(buf.Bytes()))
+				r.Header.Set("Content-Type", mw.FormDataContentType())
+			} else {
+				r = httptest.NewRequest(http.MethodPost, target, strings.NewReader(q.Encode()))
+				r.Header.Set("Content-Type", "application/x-www-form-urlencoded")
+			}
+		case c.Req.Body != nil:
+			body = []byte(*c.Req.Body)
+			jsonBody = true
+			r = httptest.NewRequest(http.MethodPost, "/x?"+q.Encode(), bytes.NewReader(body))
+			ct := "application/json"
+			if c.Req.Ctype != nil {
+				ct = *c.Req.Ctype
+			}
+			if ct != "" {
+				r.Header.Set("Content-Type", ct)
+			}
+		default:
+			r = httptest.NewRequest(http.MethodGet, "/x?"+q.Encode(), nil)
+		}
+		if c.Req.Header != nil {
+			if err := addHeaders(r, c.Req.Header); err != nil {
+				return nil, nil, false, nil, fmt.Errorf("header: %v", err)
+			}
+		}
+		if c.Req.Path != nil {
+			sm, _, err := stringMap(c.Req.Path)
+			if err != nil {
+				return nil, nil, false, nil, fmt.Errorf("path: %v", err)
+			}
+			vars = map[string]string{}
+			for k, v := range sm {
+				vars[k] = v[0]
+			}
+		}
+	default:
+		return nil, nil, false, nil, fmt.Errorf("not a request mode: %s", c.Mode)
+	}
+	return r, body, jsonBody, vars, nil
+}
+
+// newSharedReq: the caller's request and the record of what it holds.
+func newSharedReq(c Case) (*sharedReq, error) {
+	r, body, jsonBody, vars, err := makeRequest(c)
+	if err != nil {
+		return nil, err
+	}
+	twin, _, _, _, err := makeRequest(c)
+	if err != nil {
+		return nil, err
+	}
+	sr := &sharedReq{r: r, jsonBody: jsonBody, body: body, bodyCopy: append([]byte(nil), body...)}
+	// net/http alone reads the twin: this is what r.Form / r.PostForm / r.MultipartForm hold once parsed
+	_ = twin.ParseMultipartForm(32 << 20)
+	sr.form, sr.postForm = twin.Form, twin.PostForm
+	if twin.MultipartForm != nil {
+		sr.multi = twin.MultipartForm.Value
+	}
+	sr.header = twin.Header
+	sr.url = twin.URL.String()
+	if vars != nil {
+		sr.vars = map[string]string{}
+		for k, v := range vars {
+			sr.vars[k] = v
+		}
+		sr.r = pathvar.WithVars(r, vars)
+	}
+	if c.Preparse {
+		_ = sr.r.ParseMultipartForm(32 << 20)
+	}
+	return sr, nil
 }
 
 // junk overwrites a scalar with a value the documents never hold.
@@ -1007,7 +1329,7 @@ func runStep(c Case, sq *seqState) (out Out) {
 		if c.Conc != nil {
 			return runConc(c)
 		}
-		sq = &seqState{seen: map[uintptr]string{}}
+		sq = &seqState{seen: map[uintptr]string{}, reqs: map[string]*sharedReq{}, inputs: map[string]any{}, raws: map[string][]byte{}}
 		for i, st := range c.Steps {
 			st.ID = i
 			sq.step = i
@@ -1051,7 +1373,10 @@ func runStep(c Case, sq *seqState) (out Out) {
 	selfBefore := selfCalls
 
 	var call func() error
-	var input any // the caller's own map, for the entry points that take one
+	var input any       // the caller's own map, for the entry points that take one
+	var inputBefore any // what it held before the call
+	var rawIn, rawBefore []byte
+	var sr *sharedReq // the caller's request
 	switch c.Mode {
 	case "json", "yaml", "toml", "jsonreader", "ojson", "yamlreader", "tomlbytes":
 		if c.Raw == nil {
@@ -1059,6 +1384,15 @@ func runStep(c Case, sq *seqState) (out Out) {
 			return
 		}
 		raw := []byte(*c.Raw)
+		if sq != nil && c.ReqID != "" {
+			// the caller hands the same bytes in again
+			if prev, ok := sq.raws[c.ReqID]; ok {
+				raw = prev
+			} else {
+				sq.raws[c.ReqID] = raw
+			}
+		}
+		rawIn, rawBefore = raw, append([]byte(nil), raw...)
 		switch c.Mode {
 		case "json":
 			call = func() error { return mapping.UnmarshalJsonBytes(raw, target.Interface()) }
@@ -1087,7 +1421,15 @@ func runStep(c Case, sq *seqState) (out Out) {
 			out.Fail = c.Mode + " mode needs an object document"
 			return
 		}
-		input = m
+		if sq != nil && c.ReqID != "" {
+			// the caller hands the same map in again
+			if prev, ok := sq.inputs[c.ReqID]; ok {
+				m = prev.(map[string]any)
+			} else {
+				sq.inputs[c.ReqID] = m
+			}
+		}
+		input, inputBefore = m, deepCopy(m)
 		switch c.Mode {
 		case "key":
 			call = func() error { return mapping.UnmarshalKey(m, target.Interface()) }
@@ -1142,114 +1484,71 @@ func runStep(c Case, sq *seqState) (out Out) {
 			u = mapping.NewUnmarshaler("header", mapping.WithStringValues(),
 				mapping.WithCanonicalKeyFunc(textproto.CanonicalMIMEHeaderKey))
 		}
-		input = m
-		call = func() error { return u.Unmarshal(m, target.Interface()) }
-	case "httpx-json", "httpx-form", "httpx-path", "httpx-header", "parse":
-		var r *http.Request
-		switch c.Mode {
-		case "httpx-json":
-			if c.Raw == nil {
-				out.Fail = "httpx-json mode needs raw"
-				return
-			}
-			body := []byte(*c.Raw)
-			if c.Pad > 0 && len(body) > 0 {
-				padded := make([]byte, 0, len(body)+c.Pad)
-				padded = append(padded, body[0])
-				padded = append(padded, bytes.Repeat([]byte{' '}, c.Pad)...)
-				body = append(padded, body[1:]...)
-			}
-			r = httptest.NewRequest(http.MethodPost, "/x", bytes.NewReader(body))
-			ct := "application/json"
-			if c.Ctype != nil {
-				ct = *c.Ctype
-			}
-			if ct != "" {
-				r.Header.Set("Content-Type", ct)
-			}
-		case "httpx-form":
-			q, err := queryOf(c.Doc, c.Repeat)
-			if err != nil {
-				out.Fail = "doc: " + err.Error()
-				return
-			}
-			r = httptest.NewRequest(http.MethodGet, "/x?"+q.Encode(), nil)
-		case "httpx-path":
-			sm, _, err := stringMap(c.Doc)
-			if err != nil {
-				out.Fail = "doc: " + err.Error()
-				return
-			}
-			vars := map[string]string{}
-			for k, v := range sm {
-				vars[k] = v[0]
-			}
-			r = pathvar.WithVars(httptest.NewRequest(http.MethodGet, "/x", nil), vars)
-		case "httpx-header":
-			r = httptest.NewRequest(http.MethodGet, "/x", nil)
-			if err := addHeaders(r, c.Doc); err != nil {
-				out.Fail = "doc: " + err.Error()
-				return
-			}
-		case "parse":
-			if c.Req == nil {
-				out.Fail = "parse mode needs req"
-				return
-			}
-			q := url.Values{}
-			if c.Req.Form != nil {
-				if q, err = queryOf(c.Req.Form, nil); err != nil {
-					out.Fail = "form: " + err.Error()
-					return
-				}
-			}
-			switch {
-			case c.Req.PostForm:
-				r = httptest.NewRequest(http.MethodPost, "/x", strings.NewReader(q.Encode()))
-				r.Header.Set("Content-Type", "application/x-www-form-urlencoded")
-			case c.Req.Body != nil:
-				r = httptest.NewRequest(http.MethodPost, "/x?"+q.Encode(), strings.NewReader(*c.Req.Body))
-				ct := "application/json"
-				if c.Req.Ctype != nil {
-					ct = *c.Req.Ctype
-				}
-				if ct != "" {
-					r.Header.Set("Content-Type", ct)
-				}
-			default:
-				r = httptest.NewRequest(http.MethodGet, "/x?"+q.Encode(), nil)
-			}
-			if c.Req.Header != nil {
-				if err := addHeaders(r, c.Req.Header); err != nil {
-					out.Fail = "header: " + err.Error()
-					return
-				}
-			}
-			if c.Req.Path != nil {
-				sm, _, err := stringMap(c.Req.Path)
-				if err != nil {
-					out.Fail = "path: " + err.Error()
-					return
-				}
-				vars := map[string]string{}
-				for k, v := range sm {
-					vars[k] = v[0]
-				}
-				r = pathvar.WithVars(r, vars)
+		if sq != nil && c.ReqID != "" {
+			if prev, ok := sq.inputs[c.ReqID]; ok {
+				m = prev.(map[string]any)
+			} else {
+				sq.inputs[c.ReqID] = m
 			}
 		}
-		call = func() error { return httpx.Parse(r, target.Interface()) }
-		if c.Direct {
-			switch c.Mode {
-			case "httpx-json":
-				call = func() error { return httpx.ParseJsonBody(r, target.Interface()) }
-			case "httpx-form":
-				call = func() error { return httpx.ParseForm(r, target.Interface()) }
-			case "httpx-path":
-				call = func() error { return httpx.ParsePath(r, target.Interface()) }
-			case "httpx-header":
-				call = func() error { return httpx.ParseHeaders(r, target.Interface()) }
+		input, inputBefore = m, deepCopy(m)
+		call = func() error { return u.Unmarshal(m, target.Interface()) }
+	case "httpx-json", "httpx-form", "httpx-path", "httpx-header", "parse":
+		if sq != nil && c.ReqID != "" {
+			sr = sq.reqs[c.ReqID]
+		}
+		if sr == nil {
+			var err error
+			if sr, err = newSharedReq(c); err != nil {
+				out.Fail = err.Error()
+				return
 			}
+			if sq != nil && c.ReqID != "" {
+				sq.reqs[c.ReqID] = sr
+			}
+		}
+		if d := sr.changed(); d != "" {
+			if d == sr.reported {
+				out.Changed = "as an earlier call left it: " + d
+			} else {
+				out.Changed = "before this call, while the caller only wrote into results it had been given: " + d
+			}
+		}
+		if sr.jsonBody {
+			// a body can be read once: the caller puts its bytes back before every call
+			sr.r.Body = io.NopCloser(bytes.NewReader(sr.body))
+		}
+		r := sr.r
+		call = func() error { return httpx.Parse(r, target.Interface()) }
+		entry := c.Entry
+		if c.Direct {
+			entry = map[string]string{"httpx-json": "ParseJsonBody", "httpx-form": "ParseForm", "httpx-path": "ParsePath",
+				"httpx-header": "ParseHeaders"}[c.Mode]
+		}
+		switch entry {
+		case "", "Parse":
+		case "ParseJsonBody":
+			call = func() error { return httpx.ParseJsonBody(r, target.Interface()) }
+		case "ParseForm":
+			call = func() error { return httpx.ParseForm(r, target.Interface()) }
+		case "ParsePath":
+			call = func() error { return httpx.ParsePath(r, target.Interface()) }
+		case "ParseHeaders":
+			call = func() error { return httpx.ParseHeaders(r, target.Interface()) }
+		case "GetFormValues":
+			// the parameter map as a caller of its own gets it, handed to an unmarshaller built like httpx's
+			call = func() error {
+				params, err := httpx.GetFormValues(r)
+				if err != nil {
+					return err
+				}
+				input = params
+				return mapping.NewUnmarshaler("form", mapping.WithStringValues(), mapping.WithOpaqueKeys(),
+					mapping.WithFromArray()).Unmarshal(params, target.Interface())
+			}
+		default:
+			out.Fail = "unknown entry " + entry
+			return
 		}
 	}
 
@@ -1281,11 +1580,52 @@ func runStep(c Case, sq *seqState) (out Out) {
 			sq.keep = append(sq.keep, target.Interface(), input)
 		}
 		inputStorage(input, prefix+"-input", seen)
-		out.Alias = aliased(target.Elem(), prefix, seen)
-		if c.Mutate {
-			mutateAll(target.Elem())
+		if sr != nil {
+			for name, vs := range map[string]map[string][]string{"r.Form": sr.r.Form, "r.PostForm": sr.r.PostForm, "r.Header": sr.r.Header} {
+				for k, v := range vs {
+					if len(v) > 0 {
+						seen[reflect.ValueOf(v).Pointer()] = fmt.Sprintf("%s-%s[%s]", prefix, name, k)
+					}
+				}
+			}
 		}
+		out.Alias = aliased(target.Elem(), prefix, seen)
 	}()
+	// what the caller handed in must hold what it held before the call, whatever the verdict
+	if sr != nil && out.Changed == "" {
+		out.Changed = sr.changed()
+		sr.reported = out.Changed
+	}
+	if inputBefore != nil && out.Changed == "" && !sameDoc(input, inputBefore) {
+		out.Changed = fmt.Sprintf("the input map is %v, was %v", input, inputBefore)
+	}
+	if rawIn != nil && out.Changed == "" && !bytes.Equal(rawIn, rawBefore) {
+		out.Changed = "the input text was overwritten"
+	}
+	if len(out.Changed) > 300 {
+		out.Changed = out.Changed[:300]
+	}
+	if c.Mutate && out.Verdict == "ok" {
+		// the caller uses what it got: its target, and the parameter map GetFormValues returned to it
+		mutateAll(target.Elem())
+		if c.Entry == "GetFormValues" {
+			if params, ok := input.(map[string]any); ok {
+				for k, v := range params {
+					if vs, ok := v.([]string); ok {
+						for i := range vs {
+							vs[i] = "scribbled"
+						}
+						if cap(vs) > len(vs) {
+							vs = vs[:len(vs)+1]
+							vs[len(vs)-1] = "scribbled"
+							params[k] = vs
+						}
+					}
+				}
+				params["scribbled-key"] = []string{"1"}
+			}
+		}
+	}
 	if c.Static == "self" {
 		out.Called = selfCalls > selfBefore
 	}
